@@ -91,12 +91,13 @@ pub fn run(rep: &mut Report, thorough: bool) {
             (Ip::parse("ff02::1:ffab:cdef"), [0x33, 0x33, 0xff, 0xab, 0xcd, 0xef]),
             (Ip::parse("ff02::1"), [0x33, 0x33, 0, 0, 0, 1]),
         ];
-        let dims = [tg.len() as u64, opts.len() as u64, 3, dsts.len() as u64];
-        sweep_frames(rep, cfg, &format!("nd-ns-{}", tag), "target x options layout x code{0,1,255} x destination", crate::engine::product(&dims), |i| {
+        let srcs6: Vec<Ip> = vec![cli6(), Ip::parse("::"), Ip::parse("fe80::1"), Ip::parse("::1"), Ip::parse("ff02::1"), Ip::parse("::ffff:10.0.0.9"), srv6(), cli6b()];
+        let dims = [tg.len() as u64, opts.len() as u64, 3, dsts.len() as u64, srcs6.len() as u64];
+        sweep_frames(rep, cfg, &format!("nd-ns-{}", tag), "target x options layout x code{0,1,255} x destination x source address (8, incl. the unspecified address)", crate::engine::product(&dims), |i| {
             let d = crate::engine::unrank(i, &dims);
             let (dip, dmac) = &dsts[d[3] as usize];
             let code = [0u8, 1, 255][d[2] as usize];
-            eth(dmac, &MAC_CLI, ET_IP6, &nd_ns(&cli6(), dip, &tg[d[0] as usize], &opts[d[1] as usize], code))
+            eth(dmac, &MAC_CLI, ET_IP6, &nd_ns(&srcs6[d[4] as usize], dip, &tg[d[0] as usize], &opts[d[1] as usize], code))
         });
         if thorough {
             // every single byte of the NS target and every code for echo, wider id x seq grid
